@@ -242,6 +242,18 @@ def _check_function(sh: Shapes, c: ClassInfo, tags: set[str], f: FuncInfo, r1, r
 							base = b[0]
 				elif isinstance(v, ast.Attribute) and v.attr == '_elements' and isinstance(v.value, ast.Name) and v.value.id == 'self':
 					base = set(tags)
+				elif isinstance(v, ast.Attribute) and isinstance(v.value, ast.Name) and v.value.id == 'self':
+					# self.<list property>[i] where the property is an unfiltered comprehension over self._children(path)
+					g = sh.idx.lookup(c, v.attr)
+					if g is not None and g.is_property:
+						rets = [x.value for x in walk_no_nested(g.node) if isinstance(x, ast.Return)]
+						if len(rets) == 1 and isinstance(rets[0], ast.ListComp) and len(rets[0].generators) == 1 and not rets[0].generators[0].ifs:
+							it = rets[0].generators[0].iter
+							if isinstance(it, ast.Call) and isinstance(it.func, ast.Attribute) and it.func.attr == '_children' and isinstance(it.func.value, ast.Name) and it.func.value.id == 'self':
+								if it.args and const_str(it.args[0]) is not None:
+									base = path_target(set(tags), const_str(it.args[0]), v, '_children')
+								elif not it.args:
+									base = set(tags)
 				if base:
 					res = index(base, i, e)
 		memo[id(e)] = res
